@@ -425,6 +425,35 @@ def w_words(items):
             groups.setdefault((unit, element), []).append(word)
     for (unit, element), words in groups.items():
         d = G["dfas"][unit]
+        # ONE rule object (as handed out by rule.get_rule) validating every word of the group in turn, modes alternating
+        from metapype.eml import rule as _rule
+        from metapype.eml.exceptions import MetapypeRuleError as _MRE
+        try:
+            robj = _rule.get_rule(element)
+        except Exception:  # noqa: BLE001 - C10's business
+            robj = None
+        for k, w in enumerate(words if robj is not None else []):
+            verdict = d.out[d.run(w)]
+            p = realise(unit, element, w, rules)
+            errs, raised = [], None
+            try:
+                robj.validate_rule(p, errs) if k % 2 == 0 else robj.validate_rule(p)
+            except Exception as e:  # noqa: BLE001
+                raised = e
+            Node.store.clear()
+            n += 1
+            childfam = [e[0].name for e in errs if e[0].name in CHILD_CODES]
+            if raised is not None and (k % 2 == 0 or not isinstance(raised, _MRE)):
+                out.append((f"reused-rule-object:{'collecting-mode-raised' if k % 2 == 0 else 'failfast-non-rule-error'}:{type(raised).__name__}:{unit}", repr(raised),
+                            {"kind": "reused-rule", "unit": unit, "element": element, "word": list(w), "position": k + 1}))
+            elif k % 2 == 0 and ((verdict == "ACCEPT" and errs) or (verdict == "REJECT" and not childfam)):
+                out.append((f"reused-rule-object:{'valid-sequence-rejected' if verdict == 'ACCEPT' else 'invalid-sequence-accepted'}:{unit}",
+                            f"{unit} ({element}) children {list(w)} as node {k + 1} validated by one Rule object: verdict {verdict}, codes {[e[0].name for e in errs]}",
+                            {"kind": "reused-rule", "unit": unit, "element": element, "word": list(w), "verdict": verdict, "position": k + 1}))
+            elif k % 2 == 1 and ((verdict == "ACCEPT" and raised is not None) or (verdict == "REJECT" and raised is None)):
+                out.append((f"reused-rule-object:{'valid-sequence-rejected' if verdict == 'ACCEPT' else 'invalid-sequence-accepted'}-failfast:{unit}",
+                            f"{unit} ({element}) children {list(w)} as node {k + 1} validated by one Rule object: verdict {verdict}, fail-fast {raised!r}",
+                            {"kind": "reused-rule", "unit": unit, "element": element, "word": list(w), "verdict": verdict, "position": k + 1}))
         for lo in range(0, len(words), 12):
             batch = words[lo:lo + 12]
             for order in (batch, batch[::-1]):
